@@ -145,11 +145,17 @@ class Env:
         for n in ('type', 'len', 'isinstance', 'issubclass', 'sorted', 'enumerate', 'zip',
                   'range', 'iter', 'next', 'getattr', 'setattr', 'delattr', 'hasattr',
                   'callable', 'sum', 'any', 'all', 'reversed', 'min', 'max', 'abs',
-                  'print', 'id', 'hash', 'repr'):
+                  'print', 'id', 'hash', 'repr', 'map'):
             b[n] = EnvFunc(n, getattr(self, 'bi_' + n))
 
     def builtin(self, name):
         return self.builtins.get(name)
+
+    def bi_map(self, it, a, k):
+        # Python 3: map() is LAZY -- nothing is called until the result is iterated (a discarded map does nothing)
+        if len(a) != 2:
+            raise Unsupported('map with %d arguments' % len(a))
+        return Obj('lazymap', {'func': a[0], 'source': a[1]})
 
     def bi_type(self, it, a, k):
         v = a[0]
@@ -1114,6 +1120,14 @@ class Env:
             return list(v.items)
         if isinstance(v, str):
             return list(v)
+        if isinstance(v, Obj) and v.cls == 'lazymap':
+            src = self.iterate(it, v.fields['source'])
+            if src is NotImplemented:
+                return NotImplemented
+            if v.fields.get('done'):
+                return []
+            v.fields['done'] = True
+            return [it.call(v.fields['func'], [x], {}) for x in src]
         if isinstance(v, IterV):
             rest = v.items[v.pos:]
             v.pos = len(v.items)
